@@ -174,21 +174,34 @@ def url_splitter(urlutils):
 
 
 def url_re_probe(split):
-    """fallback when the structure cannot be read: the stop set of each group, determined by trying EVERY code point
-    (all 0x110000 of them - the theorems quantify over all texts) in the middle of a run of that group"""
+    """fallback when the structure cannot be read: the stop set of each group, determined by putting EVERY code point
+    (all 0x110000 of them - the theorems quantify over all texts) into a run of that group: a block of code points that
+    the group swallows whole contains no stop character, a block that it does not is halved until the culprits are
+    single characters"""
     probes = {'schemeStop': ('a%sa:', 'scheme', 'a%sa'), 'authStop': ('//a%sa@h', 'authority', 'a%sa@h'),
               'pathStop': ('/a%sa', 'path', '/a%sa'), 'queryStop': ('?a%sa', 'query', 'a%sa'),
               'fragStop': ('#a%sa', 'fragment', 'a%sa')}
     out = {}
     for key, (tmpl, group, want) in probes.items():
         stops = []
-        for c in range(0x110000):
-            ch = chr(c)
-            g = split(tmpl.replace('%s', ch))
-            if g is None or g[group] != want.replace('%s', ch):
-                stops.append(c)
+
+        def swallowed(lo, hi):
+            block = ''.join(map(chr, range(lo, hi)))
+            g = split(tmpl.replace('%s', block))
+            return g is not None and g[group] == want.replace('%s', block)
+
+        def find(lo, hi):
+            if swallowed(lo, hi):
+                return
+            if hi - lo == 1:
+                stops.append(lo)
                 if len(stops) > 64:
                     raise ValueError('group %r stops at more than 64 different characters' % group)
+                return
+            mid = (lo + hi) // 2
+            find(lo, mid)
+            find(mid, hi)
+        find(0, 0x110000)
         out[key] = stops
     return out
 
@@ -789,8 +802,10 @@ class C06(Property):
                    'Lean theorems; in the correspondence the driver uses the NFC pairs supplied by the harness, a Lean '
                    'transliteration of glibc inet_pton, and the ASCII fast path of the idna codec; texts containing '
                    "'xn--' and full renderings of non-ASCII hosts are oracle-only",
-                   'the builtin int() (port text) is modelled: decimal digits of every script and the stripped white space '
-                   'come from tables regenerated from the running interpreter (unicodedata, probed against int()); the '
+                   'the port reader of parse_url (the builtin int() in the code as it stands) is modelled as an int()-like reader '
+                   'with five parameters (accepted decimal-digit runs, stripped white space, + sign, - sign, single underscores) that '
+                   'the translator determines by probing parse_url (candidates: the digits / white space the running interpreter knows, '
+                   'from unicodedata, themselves probed against int()) and validates on ~1500 port texts; the '
                    "interpreter's limit on the number of digits (sys.get_int_max_str_digits) is outside the model: "
                    'texts longer than 4000 characters are oracle-only',
                    'URL objects are independent values in the model; sharing between objects alive at the same time and '
@@ -1042,7 +1057,9 @@ class C06(Property):
                 yield {'k': 'u', 't': '%' + a + b}
                 yield {'k': 'u', 't': 'x%' + b + a + 'y'}
         for t in UNQ_TOKENS + ['%e2%82%aC', '%E2%82%Ac', '%c3%A9', '%C3%a9', '%aB%Cd', '%+1', '% 1', '%1 ', '%-1', '%_1', '%0x', '%1_',
-                               '%\u0661\u0662', '%\uff21\uff11', '%4\u0661', '%%41', '%2541', '%\n41', '%41%', '%41%4', '%4%41']:
+                               '%\u0661\u0662', '%\uff21\uff11', '%4\u0661', '%%41', '%2541', '%\n41', '%41%', '%41%4', '%4%41',
+                               '%  ', '%  x', 'a%\t\tb', '% \n', '%\n\n', '%\r\n', '%\x0b\x0c', '%4 1', '% 41', '%4  1', '%  41',
+                               '%0x41', '%x41', '%4_1', '%+41', '%-41']:
             yield {'k': 'u', 't': t}
         # the order of repeated keys is part of what was put in
         for q in ([['a', '1'], ['b', '2'], ['a', '3']], [['b', None], ['a', ''], ['b', 'x'], ['a', None]],
